@@ -2,14 +2,13 @@
    a small first-order language (assignments, calls, `with REAL/INTEGER`
    blocks, `if` without else, `assert`) with an evaluator that is generic in
    the number type, so that the same program term is
-     - given a meaning over the reals with a Flocq rounding operator (EftProofs.v), and
+     - given a meaning over the reals with a Flocq rounding operator (EftReal.v, EftProofs.v), and
      - executed on RealFloat values with the shared model of RealFloat.round
        (correspondence with fpy2, refutations by vm_compute).
    The *bodies* of the library functions are regenerated from /repo on every
    run by harness/props/c20.py and compared (Coq `=`, by vm_compute) with the
    bodies named here.  Definitions only. *)
-From Coq Require Import ZArith List Bool String Reals.
-From Flocq Require Import Core.
+From Coq Require Import ZArith List Bool String.
 From FpyV Require Import Num.RealFloat.
 Import ListNotations.
 Open Scope Z_scope.
@@ -323,23 +322,6 @@ Definition lib_pinned : prog :=
       (replace_fn "classic_2fma" classic_2fma_body_fast lib_good)).
 
 Close Scope string_scope.
-(* ---------------------------------------------------------------- numbers 1: reals with a Flocq rounding *)
-Definition Rltb (x y : R) : bool := if Rlt_dec x y then true else false.
-Definition Reqb (x y : R) : bool := if Req_EM_T x y then true else false.
-
-(* `rnd` is the caller's rounding operator; `prec` its precision *)
-Definition numR (rnd : R -> R) (prec : Z) : num R := {|
-  n_of_Z := IZR;
-  n_neg := Ropp; n_abs := Rabs;
-  n_add := Rplus; n_sub := Rminus; n_mul := Rmult;
-  n_div := fun x y => Ok (x / y)%R;
-  n_pow := fun x y => Ok (Rpower x y);
-  n_ceil := fun x => IZR (Zceil x);
-  n_ltb := Rltb; n_eqb := Reqb;
-  n_isint := fun x => Reqb (IZR (Zfloor x)) x;
-  n_rnd := fun c x => match c with CAmb => rnd x | CReal => x | CInt => IZR (Ztrunc x) end;
-  n_maxp := fun c => match c with CAmb => Ok (rnd (IZR prec)) | _ => Err ValueErr end |}.
-
 (* ---------------------------------------------------------------- numbers 2: RealFloat values, executable *)
 (* a floating-point context: precision, optional least digit position
    (MPFloatContext p = (p, None); MPSFloatContext p emin = (p, Some (emin - p))),
